@@ -26,7 +26,7 @@ def gen_case(seed, i, engine, heavy_failures, real=None):
     # the take-over: either the harness's transcription of leader.go, or (real) the REAL
     # leader.NewLeaderElection(...).Campaign() of a restarted node, optionally with the engine-timestamp read
     # after its lock write failing
-    lines.append("restart" if real is None else "campaign id=n1" + {"plain": "", "tso": " f=tso", "fresh": " fresh=1 f=tsoslow", "slow": " f=tsoslow"}[real])
+    lines.append("restart" if real is None else "campaign id=n1" + {"plain": "", "tso": " f=tso", "fresh": " fresh=1 f=tsoslow", "slow": " f=tsoslow", "tso2": " f=tso2"}[real])
     lines.append("list %s %s 0 0" % (hx(PREFIX + b"/"), hx(PREFIX + b"0")))
     for k in keys:
         lines.append("get %s 0" % hx(k))
@@ -101,7 +101,7 @@ def oracle(case):
 
 def check(rep, tier, seed):
     n = 18 if tier == "quick" else 1200
-    cases = [gen_case(seed, i, ENGINES[i % 3], heavy_failures=(i % 2 == 0), real=[None, "plain", "tso", "fresh", "slow"][(i // 3) % 5]) for i in range(n)]
+    cases = [gen_case(seed, i, ENGINES[i % 3], heavy_failures=(i % 2 == 0), real=[None, "plain", "tso", "fresh", "slow", "tso2"][(i // 3) % 6]) for i in range(n)]
     cases += [sync_order_case(i) for i in range(3)]
     core.run_cases(cases)
     for c in cases:
